@@ -7,6 +7,9 @@
   Helper lemmas: `Robotools/Proofs/ReplayLemmas.lean`.
 -/
 import Robotools.Proofs.ReplayLemmas
+import Robotools.Proofs.BoundLemmas
+import Robotools.Proofs.FlowLemmas
+import Robotools.Proofs.PlanLemmas
 namespace Robotools
 namespace C03
 open RP
@@ -111,6 +114,154 @@ theorem run_safe (w₀ : World) (hwf : WF w₀) (h0 : w₀.recs = []) (ops : Lis
         have hwf' : WF w' := by have := step_wf w₀ op hwf; rw [hx] at this; exact this
         exact ih w' hwf' (fun o ho => hops o (List.mem_cons_of_mem _ ho))
           (by rw [hcfg]; exact hdev) (hinv rfl)
+
+/-! ### No oversized step -/
+
+/-- **C03 (per-step bound).**  For *any* program over *all* public operations with any
+    arguments, every `A;`/`D;` record present after any number of operations — also in the state a
+    failing operation leaves behind — carries a volume of at most the worklist's `max_volume`. -/
+theorem steps_bounded (w₀ : World) (h0 : ∀ r ∈ w₀.recs, Rec.within w₀.cfg.maxVolume r)
+    (ops : List Op) : ∀ s ∈ statesOf w₀ ops, ∀ r ∈ s.1.recs, Rec.within w₀.cfg.maxVolume r := by
+  induction ops generalizing w₀ with
+  | nil => intro s hs; cases hs
+  | cons op ops ih =>
+    intro s hs
+    have hstep : ∀ r ∈ (w₀.step op).1.recs, Rec.within w₀.cfg.maxVolume r :=
+      recs_within_exec w₀ _ (within_compile w₀ op) h0
+    unfold statesOf at hs
+    cases hx : w₀.step op with
+    | mk w' e =>
+      rw [hx] at hs hstep
+      cases e with
+      | some e =>
+        simp only [List.mem_singleton] at hs
+        subst hs
+        exact hstep
+      | none =>
+        simp only [List.mem_cons] at hs
+        rcases hs with rfl | hs
+        · exact hstep
+        · have hcfg : w'.cfg = w₀.cfg := by have := step_cfg w₀ op; rw [hx] at this; exact this
+          rw [← hcfg]
+          exact ih w' (by rw [hcfg]; exact hstep) s hs
+
+theorem exec_fail_mem (w : World) (ms : List Micro) (e : Err) (h : Micro.fail e ∈ ms) :
+    (w.exec ms).2 ≠ none := by
+  induction ms generalizing w with
+  | nil => cases h
+  | cons m ms ih =>
+    cases hm : w.micro m with
+    | error e' => rw [World.exec_cons_error _ hm]; simp
+    | ok w' =>
+      rw [World.exec_cons_ok _ hm]
+      rcases List.mem_cons.1 h with rfl | h'
+      · simp [World.micro] at hm
+      · exact ih w' h'
+
+theorem prepareAD_oversize (a : ADArgs) (M : Rat) (h : M < a.vol) :
+    ∃ e, prepareAD a (some M) = .error e := by
+  simp only [prepareAD, bind, Except.bind, pure, Except.pure, throw, throwThe, MonadExceptOf.throw]
+  repeat' split
+  all_goals first
+    | exact ⟨_, rfl⟩
+    | (exfalso; simp_all)
+
+/-- The triples a `transfer` call works on (after flattening and broadcasting). -/
+def transferTriples (srcWells dstWells : Arr String) (vols : Arr Rat) : List Triple :=
+  let sw := srcWells.flattenF
+  let dw := dstWells.flattenF
+  let vs := vols.flattenF
+  let nmax := max sw.length (max dw.length vs.length)
+  (((broadcast1 sw nmax).zip (broadcast1 dw nmax)).zip (broadcast1 vs nmax)).map
+    fun ((s, d), v) => ⟨s, d, v⟩
+
+theorem pair_mem_plan_nosplit (M : Rat) (byDest : Bool) (ts : List Triple) (t : Triple) (ht : t ∈ ts)
+    (hv : 0 < t.vol) : PlanStep.pair t.src t.dst t.vol ∈ transferPlan false M byDest ts := by
+  have hperm := partitionByColumn_flatten_perm ts byDest
+  have hmem : t ∈ (partitionByColumn ts byDest).flatten := hperm.mem_iff.2 ht
+  obtain ⟨g, hg, htg⟩ := List.mem_flatten.1 hmem
+  unfold transferPlan
+  refine List.mem_flatMap.2 ⟨g, hg, ?_⟩
+  have hvls : volLists false M g = g.map fun t => [t.vol] := by
+    unfold volLists; simp
+  rw [hvls]
+  unfold groupPlan
+  have hin : [t.vol] ∈ g.map fun t => [t.vol] := List.mem_map.2 ⟨t, htg, rfl⟩
+  have hnp : 0 < maxLen (g.map fun t => [t.vol]) := by
+    have := length_le_maxLen hin
+    simp at this
+    omega
+  simp only [List.mem_append, List.mem_flatMap, List.mem_range]
+  refine Or.inl ⟨0, hnp, Or.inl ⟨(t.src, t.dst, t.vol), ?_, by simp⟩⟩
+  unfold roundPairs
+  rw [zip_map_self, List.mem_filterMap]
+  exact ⟨(t, [t.vol]), List.mem_map.2 ⟨t, htg, rfl⟩, by simp [hv]⟩
+
+/-- **C03 (no silent oversize).**  Without `auto_split`, a transfer that requests a volume above
+    `max_volume` for some (source, destination) pair never completes: the operation raises
+    (`InvalidOperationError` from the per-step guard, unless something else refuses it earlier),
+    and by `steps_bounded` the oversized step is not in the worklist. -/
+theorem no_split_rejects (w : World) (cfg : Cfg) (hns : cfg.autoSplit = false) (S : Labware)
+    (src : Nat) (srcWells : Arr String) (D : Labware) (dst : Nat) (dstWells : Arr String)
+    (vols : Arr Rat) (label : Option String) (wash : WashArg) (partitionBy : String) (kw : KW)
+    (t : Triple) (ht : t ∈ transferTriples srcWells dstWells vols) (hbig : cfg.maxVolume < t.vol)
+    (hpos : 0 < t.vol) :
+    (w.exec (compileTransfer cfg S src srcWells D dst dstWells vols label wash partitionBy kw)).2
+      ≠ none := by
+  suffices h : ∃ e, Micro.fail e ∈
+      compileTransfer cfg S src srcWells D dst dstWells vols label wash partitionBy kw by
+    obtain ⟨e, he⟩ := h
+    exact exec_fail_mem w _ e he
+  unfold compileTransfer
+  split
+  · exact ⟨_, List.mem_singleton.2 rfl⟩
+  · simp only
+    split
+    · exact ⟨_, List.mem_singleton.2 rfl⟩
+    · split
+      · exact ⟨_, List.mem_singleton.2 rfl⟩
+      · split
+        · exact ⟨_, List.mem_singleton.2 rfl⟩
+        · rename_i byDest _
+          have hpair := pair_mem_plan_nosplit cfg.maxVolume byDest _ t ht hpos
+          rw [hns]
+          -- the aspirate of that pair contains a `fail`
+          have hasp : ∃ e, Micro.fail e ∈
+              compileAspirate cfg S src (.scalar t.src) (.scalar t.vol) none kw := by
+            unfold compileAspirate
+            simp only [Arr.flattenF, broadcast1, List.length_singleton, List.replicate_one]
+            rw [emitAD_eq]
+            simp only [List.zip_cons_cons, List.zip_nil_right, List.flatMap_cons, List.flatMap_nil,
+              List.append_nil]
+            have : ∃ e, adOut cfg S true kw (t.src, t.vol) = .error e := by
+              unfold adOut
+              simp only [hpos, if_true]
+              cases cfg.dev.pos S.geom t.src with
+              | error e => exact ⟨e, rfl⟩
+              | ok pos =>
+                simp only
+                obtain ⟨e, he⟩ := prepareAD_oversize
+                  { rackLabel := S.name, position := pos, vol := t.vol,
+                    liquidClass := kw.liquidClass, tip := kw.tip, rackId := kw.rackId,
+                    tubeId := kw.tubeId, rackType := kw.rackType,
+                    forcedRackType := kw.forcedRackType } cfg.maxVolume hbig
+                rw [he]
+                exact ⟨e, rfl⟩
+            obtain ⟨e, he⟩ := this
+            refine ⟨e, ?_⟩
+            rw [he]
+            simp [exceptMicros]
+          obtain ⟨e, he⟩ := hasp
+          refine ⟨e, ?_⟩
+          simp only [List.mem_append, List.mem_flatMap]
+          refine Or.inl (Or.inr ⟨_, hpair, ?_⟩)
+          simp only [List.mem_append]
+          exact Or.inl (Or.inl he)
+
+/-- Non-vacuity of `no_split_rejects`: a 1000 µL request against `max_volume = 950`. -/
+example : ∃ t ∈ transferTriples (.scalar "A01") (.vec ["A01", "B01"]) (.scalar 1000),
+    (950 : Rat) < t.vol ∧ 0 < t.vol :=
+  ⟨⟨"A01", "A01", 1000⟩, by decide +kernel, by decide +kernel, by decide +kernel⟩
 
 end C03
 end Robotools
